@@ -29,7 +29,11 @@ PROX = ["prox_non_negative", "soft_thresholding", "l2_prox", "l2_square_prox", "
 SOLVERS = ["hals_nnls", "hals_nnls_cold", "fista", "active_set_nnls", "active_set_restart", "admm", "admm_constrained"]
 REG = ["cp_regressor", "tucker_regressor", "cp_plsr"]
 OTHER = ["np_scalar_hyper", "random_cp", "random_tucker", "random_tt", "random_tr", "random_parafac2", "svd_compress", "metrics"]
-ENTRY = TENALG + CONV + SVD + DECOMP + PROX + SOLVERS + REG + OTHER
+# public entry points found uncovered by an audit of the per-entry call counts (all keep the data dtype on the reference tree)
+API = ["tt_cross", "tt_oi", "partial_tucker", "initialize_cp", "initialize_tucker", "initialize_constrained", "initialize_parafac2", "cp_lstsq_grad",
+       "p2_projections", "sample_khatri_rao", "random_tensor", "random_tt_matrix", "svd_decompress", "error_metrics", "similarity_metrics", "entropy",
+       "decomposition_classes", "wrapper_methods"]
+ENTRY = TENALG + CONV + SVD + DECOMP + PROX + SOLVERS + REG + OTHER + API
 COMPLEX_OK = set(TENALG) - {"higher_order_moment"} | {"cp_to_tensor", "cp_to_unfolded", "tucker_to_tensor", "tt_to_tensor", "tr_to_tensor", "tt_matrix_to_tensor", "truncated_svd", "tensor_train", "tucker"}
 
 
@@ -344,6 +348,94 @@ def build(entry, rs, dt):
                  "constrained_simplex": lambda: D.constrained_parafac(gen.arr(rs, gen.shape(rs, 3, 2, 5), dt, "gauss"), R_, n_iter_max=it, simplex=f64(1.0), random_state=sd),
                  "simplex_prox": lambda: P.simplex_prox(A([5, 3]), f64(1.0)), "smoothness_prox": lambda: P.smoothness_prox(A([5, 3]), f64(0.3))}
         return table[which], real_ok
+    if entry in API:
+        from tensorly.decomposition import _cp, _tucker, _parafac2, _constrained_cp
+        X3 = gen.arr(rs, gen.shape(rs, 3, 3, 5), dt, "gauss")
+        ctxd = {"dtype": np.dtype(dt).type}
+        I, K, r2 = 3, 4, 2
+        J = [int(rs.randint(3, 6)) for _ in range(I)]
+        sl = [A([j, K]) for j in J]
+        tup = (np.ones(r2, dtype=dt), [A([I, r2]), A([r2, r2]), A([K, r2])], [gen.orth(rs, j, r2, dt) for j in J])
+        if entry == "tt_cross":
+            from tensorly.contrib.decomposition import tensor_train_cross
+            def f():
+                try:
+                    return tensor_train_cross(X3, [1, 2, 2, 1], tol=1e-2, n_iter_max=30, random_state=sd)
+                except ValueError as e:
+                    if "did not converge" in str(e):   # documented outcome of the cross approximation, not a dtype matter
+                        return []
+                    raise
+            return f, real_ok
+        if entry == "tt_oi":
+            from tensorly.contrib.decomposition.tt_TTOI import tensor_train_OI
+            # (n_iter > 1 raises UnboundLocalError in this contrib function today - unbound `factors` / `right_singular_vectors`; no property covers it)
+            return lambda: tensor_train_OI(X3, [1, 2, 2, 1], n_iter=1, trajectory=bool(rs.rand() < 0.5)), real_ok
+        if entry == "partial_tucker":
+            return lambda: D.partial_tucker(X, [min(2, shp[0]), min(2, shp[-1])], modes=[0, order - 1], n_iter_max=it, init=gen.choice(rs, ["svd", "random"]), random_state=sd), real_ok
+        if entry == "initialize_cp":
+            big = int(rs.randint(1, max(shp) + 3))
+            return lambda: [_cp.initialize_cp(X, big, init=ini, random_state=sd, normalize_factors=nf) for ini in ("svd", "random") for nf in (False, True)] + [
+                _cp.initialize_cp(Xp, big, init="svd", non_negative=True, random_state=sd)], real_ok
+        if entry == "initialize_tucker":
+            rk = [int(rs.randint(1, min(s_, 3) + 1)) for s_ in shp]
+            return lambda: [_tucker.initialize_tucker(X, rk, list(range(order)), sd, init=ini) for ini in ("svd", "random")] + [
+                _tucker.initialize_tucker(Xp, rk, list(range(order)), sd, init="svd", non_negative=True)], real_ok
+        if entry == "initialize_constrained":
+            Xc = gen.arr(rs, gen.shape(rs, 3, 2, 5), dt, "gauss")
+            return lambda: [_constrained_cp.initialize_constrained_parafac(Xc, R_, init=ini, random_state=sd, **o) for ini in ("svd", "random")
+                            for o in ({"non_negative": True}, {"l1_reg": 0.1}, {"simplex": 1.0}, {"smoothness": 0.1})], real_ok
+        if entry == "initialize_parafac2":
+            return lambda: [_parafac2.initialize_decomposition(sl, r2, init=ini, random_state=sd) for ini in ("svd", "random")], real_ok
+        if entry == "cp_lstsq_grad":
+            return lambda: cpm.cp_lstsq_grad((w.astype(dt), fs), X, return_loss=True), real_ok
+        if entry == "p2_projections":
+            return lambda: [p2m.apply_parafac2_projections(tup), p2m.parafac2_to_slice(tup, 1), p2m.parafac2_to_unfolded(tup, 1), p2m.parafac2_to_vec(tup)], real_ok
+        if entry == "sample_khatri_rao":
+            return lambda: D.sample_khatri_rao(fs, int(rs.randint(1, 9)), skip_matrix=gen.choice(rs, [None, 0]), random_state=sd)[0], real_ok
+        if entry == "random_tensor":
+            return lambda: R.random_tensor(tuple(shp), random_state=sd, **ctxd), real_ok
+        if entry == "random_tt_matrix":
+            return lambda: R.random_tt_matrix((2, 3, 2, 3), [1, 2, 1], random_state=sd, full=bool(rs.rand() < 0.3), **ctxd), real_ok
+        if entry == "svd_decompress":
+            from tensorly import preprocessing as pre
+            return lambda: pre.svd_decompress_parafac2_tensor(tup, [gen.orth(rs, j + 2, j, dt) for j in J]), real_ok
+        if entry == "error_metrics":
+            from tensorly.metrics import regression as mr
+            y, yp = A(shp), A(shp)
+            ax = gen.choice(rs, [None, 0])
+            return lambda: [mr.MSE(y, yp, axis=ax), mr.RMSE(y, yp, axis=ax), mr.R2_score(y, yp), mr.reflective_correlation_coefficient(y, yp, axis=ax), mr.variance(y, axis=ax),
+                            mr.standard_deviation(y, axis=ax), mr.covariance(y, yp, axis=ax), mr.correlation(y, yp, axis=ax)], real_ok
+        if entry == "similarity_metrics":
+            from tensorly.metrics import correlation_index, congruence_coefficient
+            g2 = [A([f.shape[0], R_]) for f in fs]
+            return lambda: [correlation_index(list(fs), g2, method=gen.choice(rs, ["stacked", "max_score", "avg_score"])), congruence_coefficient(list(fs), g2)[0]], real_ok
+        if entry == "entropy":
+            from tensorly.metrics import entropy as E
+            a = A([4, 4])
+            rho = (a @ a.T / np.trace(a @ a.T)).astype(dt)
+            return lambda: E.vonneumann_entropy(rho), real_ok
+        if entry == "decomposition_classes":
+            rk = [int(rs.randint(1, min(s_, 3) + 1)) for s_ in shp]
+            which = gen.choice(rs, ["CP", "CP_NN", "CP_NN_HALS", "RandomizedCP", "Tucker", "Tucker_NN", "TensorTrain", "TensorRing", "Parafac2", "CPPower", "ConstrainedCP", "TensorRingALS"])
+            table = {"CP": lambda: D.CP(R_, n_iter_max=it, random_state=sd).fit_transform(X),
+                     "CP_NN": lambda: D.CP_NN(R_, n_iter_max=it, random_state=sd).fit_transform(Xp),
+                     "CP_NN_HALS": lambda: D.CP_NN_HALS(R_, n_iter_max=it, random_state=sd).fit_transform(Xp),
+                     "RandomizedCP": lambda: D.RandomizedCP(R_, 10, n_iter_max=it, random_state=sd, max_stagnation=0).fit_transform(X),
+                     "Tucker": lambda: D.Tucker(rk, n_iter_max=it, random_state=sd).fit_transform(X),
+                     "Tucker_NN": lambda: __import__("tensorly.decomposition._tucker", fromlist=["x"]).Tucker_NN(rk, n_iter_max=it, random_state=sd).fit_transform(Xp),
+                     "TensorTrain": lambda: D.TensorTrain([1] + [2] * (order - 1) + [1]).fit_transform(X),
+                     "TensorRing": lambda: D.TensorRing([1] + [2] * (order - 1) + [1]).fit_transform(X),
+                     "Parafac2": lambda: D.Parafac2(r2, n_iter_max=it + 6, random_state=sd, return_errors=True).fit_transform(sl),
+                     "CPPower": lambda: D.CPPower(R_, n_repeat=2, n_iteration=2).fit_transform(X),
+                     "ConstrainedCP": lambda: D.ConstrainedCP(R_, n_iter_max=it, random_state=sd, non_negative=True).fit_transform(X3),
+                     "TensorRingALS": lambda: D.TensorRingALS([2, 1, 2, 2], n_iter_max=it, random_state=sd).fit_transform(X3)}
+            return table[which], real_ok
+        if entry == "wrapper_methods":
+            cp = cpm.CPTensor((w.astype(dt), [f.copy() for f in fs]))
+            rk = gen.shape(rs, order, 1, 3)
+            tk = tkm.TuckerTensor((A(rk), [A([s_, r_]) for s_, r_ in zip(shp, rk)]))
+            return lambda: [cp.to_tensor(), cp.to_vec(), cp.to_unfolded(0), cp.norm(), cp.mode_dot(A([2, shp[0]]), 0).to_tensor(), tk.to_tensor(), tk.to_vec(), tk.to_unfolded(0),
+                            tk.mode_dot(A([2, shp[0]]), 0).to_tensor()], real_ok
     if entry == "metrics":
         from tensorly.metrics import regression as mr
         from tensorly.metrics.factors import congruence_coefficient
